@@ -1059,7 +1059,7 @@ class Prop(Check):
         for c, o in zip(cases, obs):
             key = c["kind"] + (":" + c.get("mode", c.get("renderer", "")) if c["kind"] in ("model", "mm") else "")
             kinds[key] = kinds.get(key, 0) + 1
-        gv = graphviz_crosscheck(cases, obs, limit=12 if len(cases) < 2000 else 60)
+        gv = graphviz_crosscheck(cases, obs, limit=8 if len(cases) < 2000 else 60)
         return {"distribution": kinds, "graphviz_crosscheck": gv}
 
 
